@@ -61,6 +61,7 @@ def lastVal : Option (Int × ℚ) :=
   match runE (Ma.step scaleF addF divF (some (c0 : SF)) 4) Ma.init (evs.map projOut) with
   | .ok s => (match Ma.get s with | .ok (some d) => some (d.time, d.value.val) | _ => none)
   | .error _ => none
+theorem lastVal_eq : lastVal = some (8, 8388608) := by decide +kernel
 end Binary32Examples
 
 end Rrtk.Thm.C12
